@@ -293,7 +293,11 @@ class bin_stream_container(bin_stream):
 class bin_stream_pe(bin_stream_container):
     def __init__(self, binary, *args, **kwargs):
         super(bin_stream_pe, self).__init__(binary, *args, **kwargs)
-        self.endianness = binary._sex
+        # Loader convention: _sex is 0 for little endian, 1 for big endian
+        if binary._sex == 0:
+            self.endianness = LITTLE_ENDIAN
+        else:
+            self.endianness = BIG_ENDIAN
 
 
 class bin_stream_elf(bin_stream_container):
